@@ -2100,7 +2100,7 @@ class TargetRegistry:
             elif issubclass(new_type, cur_type):
                 _type_tree[cur_type] = self._register_fuzzy_type(op, new_type, _type_tree=sub_tree)
                 registered = True
-        if not registered:
+        if not registered and new_type not in _type_tree:
             _type_tree[new_type] = OrderedDict()
         return _type_tree
 
